@@ -46,7 +46,7 @@ def blocks_are_views(ctx, rep, rule: str) -> None:
 def same_recipe(ctx, rep, rule: str) -> None:
     repo = ctx.repo
     base = repo.cls(f"{DIST_MOD}:DistributorInterface")
-    mp, mg = base.methods["_merge_and_block_parameters"], base.methods["_merge_and_block_gradients"]
+    mp, mg = repo.meth(base, "_merge_and_block_parameters"), repo.meth(base, "_merge_and_block_gradients")
     def splits(fi):
         return [c for c in A.calls(fi.node, nested=True) if A.callee_name(repo, fi.module, c).endswith("shampoo_utils.multi_dim_split")]
     sp_, sg_ = splits(mp), splits(mg)
